@@ -6,10 +6,10 @@ package javascript
 // came out, as bytes, for the TLA+ contract to judge.  It decides nothing.
 //
 //   VERIF_IN     ndjson, one byte array per line (TLC's own output)
-//   VERIF_FILES  optional ndjson, one {"path": file, "split": bool} per line:
-//                real files; split = also cut at every line that is exactly "}"
-//                (input selection only; the contract checks each piece is in
-//                the domain)
+//   VERIF_FILES  optional ndjson, one {"path": file, "whole": bool, "split": bool}
+//                per line: real files; whole = the file as one input; split =
+//                cut at every line that is exactly "}" (input selection only;
+//                the contract checks each piece is in the domain)
 //   VERIF_OUT    ndjson {"in": [...], "out": [...], "src": "gen" | path, "same": bool}
 //                same = the input slice handed to MinifyCSS was left untouched
 
@@ -70,6 +70,7 @@ func TestVerifC34Minify(t *testing.T) {
 		err = vkLoadLines(fl, func(line []byte) error {
 			var f struct {
 				Path  string `json:"path"`
+				Whole bool   `json:"whole"`
 				Split bool   `json:"split"`
 			}
 			if err := json.Unmarshal(line, &f); err != nil {
@@ -79,8 +80,10 @@ func TestVerifC34Minify(t *testing.T) {
 			if err != nil {
 				return err
 			}
-			c34Run(tw, f.Path, data)
-			nf++
+			if f.Whole {
+				c34Run(tw, f.Path, data)
+				nf++
+			}
 			if f.Split {
 				var cur []byte
 				for _, ln := range bytes.SplitAfter(data, []byte("\n")) {
